@@ -254,3 +254,76 @@ func VerifC26_symbolic() {
 	out := proxyAndWriteC26(h)
 	checkC26(h, toks, out)
 }
+
+// ---------------------------------------------------------------------------------------------------
+// Focused harnesses (added after the seeded-change review, see notes/C26.md).
+
+// proxyAndWriteProtoC26: as proxyAndWriteC26 for a client request of the given protocol version (the
+// reverse proxy serves HTTP/1.0, HTTP/1.1, SPDY (ProtoMajor 1) and HTTP/2 (ProtoMajor 2) clients alike).
+func proxyAndWriteProtoC26(h bfe_http.Header, proto string, major, minor int) []byte {
+	req := &bfe_http.Request{
+		Method: "GET", URL: &url.URL{Path: "/"}, RequestURI: "/",
+		Proto: proto, ProtoMajor: major, ProtoMinor: minor,
+		Header: h, Host: "h", State: &bfe_http.RequestState{},
+	}
+	outreq := new(bfe_http.Request)
+	*outreq = *req
+	httpProtoSet(outreq)
+	hopByHopHeaderRemove(outreq, req)
+	var wire bytes.Buffer
+	err := outreq.Write(&wire)
+	vrt.Assert(err == nil, "C26/write-no-error")
+	return wire.Bytes()
+}
+
+var teListsC26 = []string{"trailers, deflate;q=0.5", "gzip, trailers", "trailers", "deflate", "Trailers", "trailers,"}
+
+// VerifC26_teLists: TE values that mention "trailers" next to other codings. 1..2 Te lines from the
+// templates above, or one line "trailers" ++ 2 symbolic bytes (every byte value: "trailers,x",
+// "trailers;q", "trailers  " ...). Only a field whose whole value is "trailers" may be written.
+func VerifC26_teLists() {
+	h := bfe_http.Header{}
+	h["X-A"] = []string{"1"}
+	nt := vrt.Param("TT", 4)
+	if n := vrt.Range("nte", 0, 2); n == 0 {
+		h["Te"] = []string{"trailers" + vrt.Str("tail", 2)}
+	} else {
+		for i := 0; i < n; i++ {
+			h["Te"] = append(h["Te"], teListsC26[vrt.Choose("te", nt)])
+		}
+	}
+	out := proxyAndWriteC26(h)
+	checkC26(h, nil, out)
+}
+
+// VerifC26_clientProto: the same removal for every client protocol version. Connection names X-A; one
+// further hop-by-hop field (or none) is present with the value "x".
+func VerifC26_clientProto() {
+	protos := []struct {
+		name         string
+		major, minor int
+	}{{"HTTP/2.0", 2, 0}, {"HTTP/1.0", 1, 0}, {"HTTP/1.1", 1, 1}}
+	p := protos[vrt.Choose("proto", len(protos))]
+	h := bfe_http.Header{}
+	h["X-A"] = []string{"1"}
+	h["X-B"] = []string{"2"}
+	if vrt.Bool("conn") {
+		h["Connection"] = []string{"x-a"}
+	}
+	others := []string{"Keep-Alive", "Proxy-Authenticate", "Proxy-Authorization", "Te", "Trailer", "Transfer-Encoding", "Upgrade"}
+	if k := vrt.Choose("other", len(others)+1); k < len(others) {
+		h[others[k]] = []string{"x"}
+	}
+	toks := connTokensC26(h)
+	out := proxyAndWriteProtoC26(h, p.name, p.major, p.minor)
+	checkC26(h, toks, out)
+	// end-to-end fields stay
+	fields, _ := refHeaderBlockC26(out)
+	kept := false
+	for _, f := range fields {
+		if foldEqC26(f.name, []byte("X-B")) {
+			kept = true
+		}
+	}
+	vrt.Assert(kept, "C26/end-to-end-header-kept")
+}
